@@ -15,7 +15,11 @@ def startTop (s : St) (t : Nat) (op : TopOp) : St :=
   | .wDespawnRec e => s.push [.despawnWork [(e, false)]]
   | .wRemove e ty => applyCmd s (.removeComp e ty)
   | .wInsertRaw e ty v => applyCmd s (.tryInsert e ty v)
-  | .wSetParent c p => if s.alive c ∧ s.alive p ∧ c ≠ p then { s with children := upd s.children p (s.children p ++ [c]) } else s
+  | .wSetParent c p =>
+    -- `set_parent`: the child leaves its previous parent's list and goes to the end of the new parent's list
+    if s.alive c ∧ s.alive p ∧ c ≠ p then
+      { s with children := fun x => if x = p then (s.children p).erase c ++ [c] else (s.children x).erase c }
+    else s
   | .gc => s.push [.gc]
   | .poll => s.push [.poll]
   | .frameEnd => s.push [.gc, .poll]
